@@ -1,6 +1,7 @@
 package checks
 
 import (
+	"os"
 	"context"
 	"errors"
 	"fmt"
@@ -37,7 +38,14 @@ func useDefer(n) { defer func() { counter = counter + 100 }(); return loop(n) }
 func mkc(x) { f := func() { return x * 2 }; g := func() { return f() + 1 }; if x < 0 { error("neg-closure") }; return g() }
 func spinc(x) { f := func() { return x }; for i := 0; i < 100000000; i++ { x = x + 0 }; return f() }
 func imp(k) { import cmod; return cmod.value + cmod.pre + k }
+func imp2(k) { import cmod2; return cmod2.answer + k }
+func impslow(k) { x := 0; for i := 0; i < 6; i++ { x++ }; import cmod2; for i := 0; i < 100000000; i++ { x++ }; return cmod2.answer + x }
+worker := spawn(func() { return 7 })
+wfirst := worker.wait()
+func waitw(k) { return worker.wait() + wfirst - 7 + k }
 `
+
+const c07Module2 = "first := 1\nfunc helper(a) { return a * 2 }\nsecond := helper(first)\nanswer := 40 + second\n"
 
 const c07Module = "pre := 1\nmaybe_fail()\nvalue := 3\n"
 
@@ -111,8 +119,19 @@ func genHistory(g *sim.Stream, f *sim.Stream) []*invocation {
 	// (vm.New); invocation 0 is Run, later ones are Calls of its functions and
 	// further Runs (which have nothing left to execute)
 	mainFamily := g.Chance(1, 3)
+	followImport := false
 	for k := 0; k < n; k++ {
 		iv := &invocation{Stale: map[int]int{}}
+		if followImport && libLive {
+			// an invocation whose import was interrupted is followed by one that
+			// imports the same module and uses it: whatever the interrupted
+			// import left behind (in the VM or in the importer the VM was given)
+			// is then on the path of a later, undisturbed invocation
+			followImport = false
+			iv.API, iv.Kind, iv.Fn, iv.Args, iv.Stateful = "Call", kNormal, "imp2", []int{g.Intn(9)}, true
+			hist = append(hist, iv)
+			continue
+		}
 		if mainFamily && k == 0 {
 			iv.API, iv.Kind, iv.IsLib = "Run", kNormal, true
 			iv.Src = c07Lib + fmt.Sprintf("\n%d\n", 3000+g.Intn(1000))
@@ -159,7 +178,7 @@ func genHistory(g *sim.Stream, f *sim.Stream) []*invocation {
 			iv.API = "Call"
 			switch kind {
 			case kNormal:
-				switch g.Intn(7) {
+				switch g.Intn(9) {
 				case 0:
 					iv.Fn, iv.Args = "add", []int{g.Intn(100), g.Intn(100)}
 				case 1:
@@ -172,9 +191,15 @@ func genHistory(g *sim.Stream, f *sim.Stream) []*invocation {
 					iv.Fn, iv.Args, iv.Stateful = "useDefer", []int{g.Range(1, 60)}, true
 				case 5:
 					iv.Fn, iv.Args = "mkc", []int{g.Range(0, 50)}
-				default:
+				case 6:
 					// a successful import is state the VM keeps (the module is cached)
 					iv.Fn, iv.Args, iv.Stateful = "imp", []int{g.Intn(9)}, true
+				case 7:
+					iv.Fn, iv.Args, iv.Stateful = "imp2", []int{g.Intn(9)}, true
+				default:
+					// a thread spawned (and finished) by the invocation that loaded the
+					// library is waited for by a later invocation
+					iv.Fn, iv.Args = "waitw", []int{g.Intn(9)}
 				}
 			case kRuntimeError:
 				switch g.Intn(3) {
@@ -193,10 +218,20 @@ func genHistory(g *sim.Stream, f *sim.Stream) []*invocation {
 			case kStackOverflow:
 				iv.Fn = "big"
 			default:
-				if g.Bool() {
+				switch g.Intn(3) {
+				case 0:
 					iv.Fn = "spin"
-				} else {
+				case 1:
 					iv.Fn, iv.Args = "spinc", []int{g.Intn(9)}
+				default:
+					// the cancellation may land before, inside or after the import
+					iv.Fn, iv.Args = "impslow", []int{g.Intn(9)}
+					if g.Chance(2, 3) {
+						followImport = true
+						if k == n-1 {
+							n++
+						}
+					}
 				}
 			}
 		} else {
@@ -392,7 +427,7 @@ func runC07(rc *fw.RunCtx) {
 		gnames = append(gnames, k)
 	}
 	sort.Strings(gnames)
-	mfs := fstest.MapFS{"cmod.risor": &fstest.MapFile{Data: []byte(c07Module)}}
+	mfs := fstest.MapFS{"cmod.risor": &fstest.MapFile{Data: []byte(c07Module)}, "cmod2.risor": &fstest.MapFile{Data: []byte(c07Module2)}}
 	newCfg := func() *risor.Config {
 		imp := importer.NewFSImporter(importer.FSImporterOptions{GlobalNames: gnames, SourceFS: mfs, Extensions: []string{".risor"}})
 		return risor.NewConfig(append(baseOpts(extra), risor.WithImporter(imp))...)
@@ -495,11 +530,20 @@ func runC07(rc *fw.RunCtx) {
 			}
 			switch iv.Kind {
 			case kCancelled:
-				s.AtStep(base+iv.OwnDelta, fmt.Sprintf("cancel(ctx%d)", k), func() {
+				fire := func() {
 					rc.Hit("fault_own_cancel")
 					cancels[k]()
 					s.SetStrategy(sim.Fair{})
-				})
+				}
+				if iv.Fn == "impslow" && iv.OwnDelta%2 == 0 {
+					// aimed: the cancel lands while the invocation sits at the
+					// import (before the importer reads and parses the module)
+					rc.Hit("fault_cancel_at_import")
+					s.AtNextSite("vm.import", fmt.Sprintf("cancel(ctx%d)", k), fire)
+					s.AtStep(base+1500, fmt.Sprintf("cancel(ctx%d)", k), fire) // fallback if the module was cached already
+				} else {
+					s.AtStep(base+iv.OwnDelta, fmt.Sprintf("cancel(ctx%d)", k), fire)
+				}
 			case kDeadline:
 				s.AtStep(base+iv.OwnDelta, fmt.Sprintf("advance-clock(ctx%d)", k), func() {
 					rc.Hit("fault_own_deadline")
@@ -597,6 +641,9 @@ func runC07(rc *fw.RunCtx) {
 		}
 	}
 	rc.NonTrivial = afterFailure || staleFired > 0
+	if os.Getenv("VERIF_DEBUG_C07") != "" && rc.Counters["fault_cancel_at_import"] > 0 {
+		fmt.Printf("DEBUG-C07 %s\n", strings.Join(lines, "\n"))
+	}
 	rc.Sample = map[string]any{"history": lines, "strategy": strat.Name(), "schedule": s.RenderTrace(30)}
 
 	if verdict != sim.Done || !finished {
